@@ -166,9 +166,15 @@ def section_chunk(items, extra):
     for item in items:
         pi, bi, k = item[:3]
         after_stop = len(item) > 3 and item[3] == "stop"      # verify the WHOLE file after the walk was stopped
+        after_set = len(item) > 3 and item[3] == "set"         # set_source(<section body text>) during the walk
         pro, body = PROLOGUES[pi], SECTION_BODIES[bi]
         filler = "w = 0\n" if k == 2 else ""
-        whole = pro + "##### Part 1\n" + (filler + "##### Part 2\n" if k == 2 else "") + body
+        eol = "\n"
+        if "\r\n" in pro:
+            # a file saved with Windows line endings has them everywhere: marker lines and section bodies too
+            eol = "\r\n"
+            body, filler = body.replace("\n", eol), filler.replace("\n", eol)
+        whole = pro + "##### Part 1" + eol + (filler + "##### Part 2" + eol if k == 2 else "") + body
         cls, line = classify(body)
         wcls, wline = classify(whole)
         # CPython's own line count of what precedes the section body
@@ -192,7 +198,15 @@ def section_chunk(items, extra):
                 ev["cls"], ev["line"], ev["offset"] = wcls, wline, 0
                 cls = wcls
             before_ids = {id(f) for f in R.feedback}
-            verify(report=R)
+            if after_set:
+                # another text takes the place of the sectioned file while a section is presented: the verdict and the
+                # line are the parser's for THAT text, no offset (set_source verifies what it is given)
+                from pedal.source import set_source
+                ev["cls"], ev["line"], ev["offset"] = cls, line, 0
+                ev["sectioned"] = False
+                set_source(body, report=R)
+            else:
+                verify(report=R)
         except Exception as e:
             ev["raised"] = True
             ev["error"] = "%s: %s" % (type(e).__name__, e)
